@@ -193,7 +193,7 @@ def generate(rng, opts):
     loads = []
     target = rng.choice(tops)
     for sched in schedules:
-        forms = ["name"] + rng.sample(["path", "strpath"], rng.choice([0, 1, 1, 2]))
+        forms = ["name"] + rng.sample(["path", "strpath", "relstr"], rng.choice([0, 1, 1, 2]))
         for form in forms:
             loads.append({"schedule": sched, "form": form})
     cfg.pop("_memo", None)
@@ -455,10 +455,14 @@ def execute(plan, ctx):
                 seam = ListingSeam(w.root, ld["schedule"], None)
                 form = ld["form"]
                 spec = target
-                if form in ("path", "strpath"):
+                if form in ("path", "strpath", "relstr"):
                     cand = [os.path.join(sp, target) for sp in sps if os.path.isdir(os.path.join(sp, target))]
                     if not cand:
                         form, spec = "name", target
+                    elif form == "relstr":
+                        # the user sits in the search path and names the directory relatively
+                        os.chdir(os.path.dirname(cand[0]))
+                        spec = target
                     else:
                         spec = Path(cand[0]) if form == "path" else cand[0]
                 ctx.steps += 1
@@ -470,7 +474,7 @@ def execute(plan, ctx):
                             spec,
                             search_paths=sps,
                             allow_inspection=plan["inspection"],
-                            try_relative_path=form == "strpath",
+                            try_relative_path=form in ("strpath", "relstr"),
                         )
                         tree = norm_tree(w, top)
                         outcome = "ok"
@@ -484,6 +488,7 @@ def execute(plan, ctx):
                     except Exception as e:  # noqa: BLE001
                         ctx.fail("T-totality", f"load({form}) raised {type(e).__name__}: {w.norm(str(e))[:200]} under {ld['schedule']}", exc=e, tags=tags)
                         return
+                os.chdir(old_cwd)
                 if seam.decisions:
                     ctx.nontrivial = True
                     ctx.probe("directory-listings-with-a-choice-of-order", seam.decisions)
